@@ -102,7 +102,7 @@ TABLE = {
                              "invalid": [("bogus", "invalid-accepted:log_level"), ("verbose", "invalid-accepted:log_level"),
                                          (["INFO"], "invalid-accepted:log_level")]},
   ("general", "document_lang"): {"type": "lang", "default": None,
-                                 "valid": ["es-419", "fr", "en-US", "ja", "pt-BR", "zh-Hant-TW", "de"],
+                                 "valid": ["es-419", "fr", "en-US", "ja", "pt-BR", "zh-Hant-TW", "de", "", ""],   # "" = no language (xml:lang=""), accepted by set_lang
                                  "invalid": [(5, "invalid-accepted:document_lang"), (["en"], "invalid-accepted:document_lang"),
                                              ({"lang": "en"}, "invalid-accepted:document_lang"),
                                              (True, "invalid-accepted:document_lang")]},
